@@ -6,7 +6,7 @@ Per change: patch.diff, demo/ (the agent's demonstration), meta.json = the agent
 or entries of lib/seeded_overrides.json for results obtained by hand)."""
 import json, os, re, shutil, glob, sys
 
-SRC = "/tmp/mut-out"
+SRCS = ["/tmp/mut-out", "/tmp/mut-out2"]
 DST = "/verif/seeded"
 over = {}
 op = "/verif/lib/seeded_overrides.json"
@@ -14,7 +14,7 @@ if os.path.exists(op):
     over = json.load(open(op))
 
 rows = []
-for d in sorted(glob.glob(f"{SRC}/C*/[ab]")):
+for d in sorted(sum((glob.glob(f"{r}/C*/[abcd]") for r in SRCS), [])):
     pid, var = d.split("/")[-2:]
     sid = f"{pid}-{var}"
     mp, cp = f"{d}/meta.json", f"{d}/confirm.json"
@@ -25,6 +25,8 @@ for d in sorted(glob.glob(f"{SRC}/C*/[ab]")):
     out = f"{DST}/{sid}"
     os.makedirs(out, exist_ok=True)
     shutil.copy(f"{d}/patch.diff", f"{out}/patch.diff")
+    if os.path.exists(f"{d}/patch_original.diff"):
+        shutil.copy(f"{d}/patch_original.diff", f"{out}/patch_original.diff")
     if os.path.isdir(f"{d}/demo"):
         shutil.rmtree(f"{out}/demo", ignore_errors=True)
         shutil.copytree(f"{d}/demo", f"{out}/demo")
@@ -42,7 +44,7 @@ for d in sorted(glob.glob(f"{SRC}/C*/[ab]")):
         "summary": meta.get("summary"), "mechanism": meta.get("mechanism"),
         "needs_to_manifest": meta.get("needs_to_manifest"), "files_changed": meta.get("files_changed"),
         "demo": {"cmd": meta.get("demo_cmd"), "failure_rate_or_time": meta.get("failure_rate_or_time")},
-        "produced_by": "fresh sub-agent given only the property text and a scratch worktree",
+        "produced_by": "fresh sub-agent given only the property text and a scratch worktree (wave %d)" % (2 if var in "cd" else 1),
         "confirmed": conf,
         "checks_run": caught,
         "caught": any(v for v in caught.values()),
